@@ -94,6 +94,13 @@ func (op *MergeOperator) iterateAndMerge() (newVal []byte, latest uint64, err er
 }
 
 func (op *MergeOperator) compact() error {
+	vhook.WaitLock("merge.compact", func() bool {
+		if op.TryLock() {
+			op.Unlock()
+			return true
+		}
+		return false
+	})
 	op.Lock()
 	defer op.Unlock()
 	val, version, err := op.iterateAndMerge()
@@ -125,6 +132,15 @@ func (op *MergeOperator) runCompactions(dur time.Duration) {
 	defer op.closer.Done()
 	var stop bool
 	for {
+		if vhook.On {
+			// Under simulation a closed closer is noticed deterministically, whichever
+			// ready case the select below then picks (stop stays set).
+			select {
+			case <-op.closer.HasBeenClosed():
+				stop = true
+			default:
+			}
+		}
 		select {
 		case <-op.closer.HasBeenClosed():
 			stop = true
